@@ -2,7 +2,7 @@
    Statements only; models in Ord/Model.v, proofs in Ord/Sorter.v and Ord/Proofs.v.
    [cmpm] is the model of the generated Compare (C03); cmp_le / cmp_ge / cmp_less /
    cmp_greater e t x y say that it returns a value <= 0 / >= 0 / < 0 / > 0 on (x, y). *)
-From Verif Require Import Go.Ty Go.Val Go.Compare Go.CompareSpec Ord.Sorter Ord.Model Ord.Proofs.
+From Verif Require Import Go.Ty Go.Val Go.Compare Go.CompareSpec Ord.Sorter Ord.Model Ord.Proofs Ord.Support Ord.Total.
 From Coq Require Import Permutation Sorted.
 Open Scope Z_scope.
 
@@ -118,3 +118,40 @@ Theorem C13_natural_order_is_compare : forall e t k x y,
                        /\ exists c, cmpm e t x y = Ok c).
 Proof. exact by_cz. Qed.
 Print Assumptions C13_natural_order_is_compare.
+
+(* ---------- the side condition "Compare is defined" discharged from the type ---------- *)
+
+(* [Unsup] depends on the type only: for every type the generator accepts for Compare the model
+   of the generated Compare returns on all well-typed values *)
+Theorem C13_cmp_sup_defined : forall x e t y, env_sup e -> cmp_sup false t = true ->
+  has_type e t x = true -> has_type e t y = true -> cmpm e t x y <> Unsup.
+Proof. exact cmp_sup_defined. Qed.
+Print Assumptions C13_cmp_sup_defined.
+
+(* Sort on a supported element type: returns (the comparator never panics), and the result is
+   the in-place sorted permutation *)
+Theorem C13_sort_total : forall srt : @sorter val, sorter_ok srt -> forall e t,
+  env_sup e -> cmp_sup false t = true -> forall v,
+  sort_kind e t <> KIll -> has_type e (TSl t) v = true ->
+  exists v', sort_model srt e t v = Ok v' /\
+    match v, v' with
+    | VNilS, VNilS => True
+    | VSl loc es sp, VSl loc' es' sp' =>
+        loc' = loc /\ sp' = sp /\ Permutation es' es /\ StronglySorted (cmp_le e t) es'
+    | _, _ => False
+    end.
+Proof. exact sort_total. Qed.
+Print Assumptions C13_sort_total.
+
+(* Min / Max on a supported element type return: no index out of range, no panic *)
+Theorem C13_minmax_total : forall e t, env_sup e -> cmp_sup false t = true -> forall lst def,
+  minmax_kind e t <> KIll -> has_type e (TSl t) lst = true ->
+  (exists r, min_model e t lst def = Ok r) /\ (exists r, max_model e t lst def = Ok r).
+Proof. exact minmax_total. Qed.
+Print Assumptions C13_minmax_total.
+
+Theorem C13_minmax2_total : forall e t, env_sup e -> cmp_sup false t = true -> forall a b,
+  minmax_kind e t <> KIll -> has_type e t a = true -> has_type e t b = true ->
+  (exists r, min2_model e t a b = Ok r) /\ (exists r, max2_model e t a b = Ok r).
+Proof. exact minmax2_total. Qed.
+Print Assumptions C13_minmax2_total.
